@@ -115,10 +115,11 @@ def _val(op):
     return fp_spec(op['v'])
 
 
-def _txn(state, op, depth=0):
+def _txn(state, op, depth=0, apply_fn=None):
     """Blocks nest and only the outermost one commits or rolls back: an
     inner block that raises (and whose exception the outer body swallows)
     leaves its effects pending in the outer transaction."""
+    apply = apply_fn or globals()['apply']
     body = op['body']
     raise_at = op.get('raise_at')
     results = []
